@@ -216,6 +216,24 @@ theorem view_refines_fails_intarg :
   revert h
   decide +kernel
 
+/-- finding C10-param-modes-not-from-isupport: the reference server's mode classes are those of the bot's
+tables (`mode_tables_ok`); a server whose CHANMODES has a further parameter mode (`+f 5:10` on many networks) is
+outside the theorem, and the bot really mis-pairs its arguments: the letter tables are fixed, what the server
+announced in 005 is not consulted. -/
+theorem separateModes_ignores_isupport :
+    separateModes ["+fo".toList, "5:10".toList, "bob".toList] =
+      [('+', 'f', none), ('+', 'o', some "5:10".toList)] := by decide +kernel
+
+set_option maxRecDepth 100000 in
+/-- … on the bot model: after `:irc.srv MODE #c +fo 5:10 bob` the "op" is `5:10`, not bob -/
+theorem param_mode_mispaired :
+    (aget ((Bot.init "test".toList "limnoria".toList).feedAll
+        [⟨"test!limnoria@bot.host".toList, "JOIN".toList, ["#c".toList]⟩,
+         ⟨"bob!b@bh".toList, "JOIN".toList, ["#c".toList]⟩,
+         ⟨"irc.srv".toList, "MODE".toList, ["#c".toList, "+fo".toList, "5:10".toList, "bob".toList]⟩]).channels
+      "#c".toList).map (fun ch => (ch.ops, ch.modes)) = some (["5:10".toList], [('f', none)]) := by
+  decide +kernel
+
 /-! ### non-vacuity -/
 
 /-- a history that meets every hypothesis of `view_refines_partial` and exercises JOIN with burst, a case-only
